@@ -1508,6 +1508,8 @@ impl<'b, T: El> Pair<'b, T> {
         let kb = keys_of(&self.bv);
         let ks = keys_of(&self.sv);
         if kb != ks {
+            // the same program on std's Vec is also the record of what the caller put into the vector
+            rep.violate("C02", format!("C02/vec<{}>/elements-read-back-differ-from-what-was-put-in", T::NAME), format!("after {}: bumpalo len {} std len {}", name, kb.len(), ks.len()));
             rep.violate(
                 "C13",
                 format!("C13/vec<{}>/{}/contents-differ-from-std", T::NAME, name),
